@@ -54,7 +54,17 @@ AX_MONO = 'L-MONO: adjacent-monotone => monotone, applied to the dimensions alon
 _qn = [0]
 
 
+def _bound():
+    """refutation mode (pyvc.nparr.BOUND): chains have at most BOUND items and every position quantifier is expanded, so that a
+    failing obligation becomes quantifier-free and yields a model; never used to prove anything"""
+    from pyvc import nparr
+    return nparr.BOUND
+
+
 def forall(n, body, pats=None):
+    if _bound() is not None:
+        import itertools
+        return z3.And(*[body(*[z3.IntVal(v) for v in vs]) for vs in itertools.product(range(0, 2 * _bound() + 2), repeat=n)])
     _qn[0] += 1
     vs = [z3.Int('c%d!%d' % (_qn[0], k)) for k in range(n)]
     b = body(*vs)
@@ -152,6 +162,8 @@ class ItemSeq(Sym):
         if n is None:
             n = cx.int('len(%s)' % name)
             cx.assume(n >= 0)
+        if _bound() is not None:
+            cx.assume(n <= _bound())
         return cls(cx.const(name, ARR, report=False), z3.IntVal(0), n, name)
 
     def at(self, k):
@@ -304,6 +316,11 @@ class ItemList(ItemSeq):
 def updated(ctx, old, writes, name):
     """the array `old` with the given positions overwritten, as a fresh constant with its defining facts (read-over-write spelled
     out with the pattern new[j] / old[j], so that E-matching alone follows it)"""
+    if _bound() is not None:
+        new = old
+        for p, t in writes:
+            new = z3.Store(new, p, t)
+        return new
     new = ctx.const("%s'" % name, ARR, report=False)
     j = z3.Int('j!upd')
     ctx.assume(z3.ForAll([j], z3.Implies(z3.And(*[j != p for p, _ in writes]), z3.Select(new, j) == z3.Select(old, j)), patterns=[z3.Select(new, j), z3.Select(old, j)]))
@@ -367,6 +384,8 @@ def _pairs(s, body, lo=None, hi=None):
     multi-pattern {arr[p], arr[q]}: instantiation creates no new array reads (no matching loop, no arithmetic in patterns)."""
     lo = s.off if lo is None else z3.simplify(s.off + lo)
     hi = z3.simplify(s.off + (s.n if hi is None else hi))
+    if _bound() is not None:
+        return z3.And(*[z3.Implies(z3.And(lo <= p, p + 1 < hi), body(z3.Select(s.arr, z3.IntVal(p)), z3.Select(s.arr, z3.IntVal(p + 1)))) for p in range(0, 2 * _bound() + 2)])
     _qn[0] += 1
     p, q = z3.Int('p!%d' % _qn[0]), z3.Int('q!%d' % _qn[0])
     return z3.ForAll([p, q], z3.Implies(z3.And(lo <= p, q == p + 1, q < hi), body(z3.Select(s.arr, p), z3.Select(s.arr, q))),
@@ -380,6 +399,10 @@ def wf(s):
 
 def mono_lemma(s):
     """L-MONO instance: in a well-formed chain (A-DIM) fromdims and todims are non-increasing along the chain"""
+    if _bound() is not None:
+        R = range(0, 2 * _bound() + 2)
+        return z3.Implies(wf(s), z3.And(*[z3.Implies(z3.And(s.off <= p, q < s.off + s.n), z3.And(fd(z3.Select(s.arr, z3.IntVal(p))) >= fd(z3.Select(s.arr, z3.IntVal(q))), td(z3.Select(s.arr, z3.IntVal(p))) >= td(z3.Select(s.arr, z3.IntVal(q)))))
+                                          for p in R for q in R if p <= q]))
     _qn[0] += 1
     p, q = z3.Int('p!%d' % _qn[0]), z3.Int('q!%d' % _qn[0])
     x, y = z3.Select(s.arr, p), z3.Select(s.arr, q)
